@@ -8,6 +8,7 @@ import (
 	"os"
 	"sync"
 
+	"verif/harness/internal/gate"
 	"verif/harness/internal/rec"
 )
 
@@ -23,6 +24,10 @@ func cmdSeq(args []string) int {
 	par := fs.Int("par", 16, "parallel scripts")
 	file := fs.String("scripts", "", "ndjson file of scripts to run instead of random ones")
 	only := fs.Int("only", -1, "run only script i")
+	profile := fs.String("profile", "", "c01 | c02 | c08 | (empty: everything)")
+	shard := fs.Int("shard", 0, "this process runs scripts i with i % shards == shard")
+	shards := fs.Int("shards", 1, "number of shards")
+	steer := fs.Bool("steer", true, "honour Mode=steer (one DB at a time in this process)")
 	_ = fs.Parse(args)
 	mustMkdir(*out)
 
@@ -45,16 +50,30 @@ func cmdSeq(args []string) int {
 		f.Close()
 	} else {
 		for i := 0; i < *n; i++ {
-			r := rand.New(rand.NewSource(*seed*1000003 + int64(i)))
+			r := rand.New(rand.NewSource(mix(*seed, i)))
 			nops := *ops
 			if i%5 == 4 {
 				nops = *ops * 4
 			}
-			scripts = append(scripts, genScript(r, fmt.Sprintf("seq-%d-%d", *seed, i), nops))
+			scripts = append(scripts, genScript(r, fmt.Sprintf("seq-%s-%d-%d", *profile, *seed, i), nops, *profile))
 		}
 	}
 	if *only >= 0 {
 		scripts = scripts[*only : *only+1]
+	} else if *shards > 1 {
+		var mine []Script
+		for i := range scripts {
+			if i%*shards == *shard {
+				mine = append(mine, scripts[i])
+			}
+		}
+		scripts = mine
+	}
+	var ctl *gate.Ctl
+	if *steer {
+		ctl = gate.New()
+		ctl.Install()
+		*par = 1
 	}
 
 	results := make([]ScriptResult, len(scripts))
@@ -67,7 +86,7 @@ func cmdSeq(args []string) int {
 		go func(i int) {
 			defer wg.Done()
 			defer func() { <-sem }()
-			traces[i], results[i] = runScript(scripts[i])
+			traces[i], results[i] = runScript(scripts[i], ctl)
 		}(i)
 	}
 	wg.Wait()
